@@ -76,6 +76,10 @@ pub enum St {
     LetA(String, E, E),
     /// SWAP of two numeric l-values (scalars or array elements with constant subscripts)
     Swap(String, String),
+    /// ERASE of one array
+    Erase(String),
+    /// MID$(v$, pos[, len]) = string expression
+    MidS(String, i64, Option<i64>, SE),
     /// string assignment
     LetS(String, SE),
     Goto(usize),
@@ -340,6 +344,9 @@ impl<'a> G<'a> {
             let (a, b) = (self.target(false), self.target(false));
             return St::Swap(a, b);
         }
+        if self.o.arrays && self.rng.chance(1, 40) {
+            return St::Erase(self.rng.pick(&ARRS).to_string());
+        }
         let v = if self.o.func && self.rng.chance(1, 10) { self.rng.pick(&PARAMS[..2]).to_string() } else { v };
         St::Let(v, e, self.rng.chance(1, 5))
     }
@@ -347,6 +354,10 @@ impl<'a> G<'a> {
     fn simple(&mut self) -> St {
         if self.o.strings && self.rng.chance(1, 5) {
             let v = self.svar();
+            if self.rng.chance(1, 4) {
+                let len = if self.rng.coin() { Some(self.rng.range(0, 3)) } else { None };
+                return St::MidS(v, self.rng.range(1, 3), len, self.sexpr(1));
+            }
             return St::LetS(v, self.sexpr(2));
         }
         match self.rng.usize(6) {
@@ -1077,6 +1088,14 @@ impl<'a> Render<'a> {
                 let (x, y) = (self.w(a), self.w(b));
                 format!("{} {},{}", self.w("SWAP"), x, y)
             }
+            St::Erase(a) => format!("{} {}", self.w("ERASE"), self.w(a)),
+            St::MidS(v, p, l, e) => {
+                let es = self.sexpr(e);
+                match l {
+                    Some(l) => format!("{}({},{},{})={}", self.w("MID$"), self.w(v), p, l, es),
+                    None => format!("{}({},{})={}", self.w("MID$"), self.w(v), p, es),
+                }
+            }
             St::LetS(v, e) => {
                 let es = self.sexpr(e);
                 format!("{}={}", self.w(v), es)
@@ -1464,6 +1483,8 @@ struct M<'a> {
     kinds: std::collections::BTreeSet<&'static str>,
     max_depth: usize,
     shape_log: Vec<(u32, u32)>,
+    /// arrays that exist (auto-dimensioned by a first access) -- ERASE of another one is an error
+    exists: std::cell::RefCell<std::collections::BTreeSet<String>>,
 }
 
 enum Flow {
@@ -1511,6 +1532,10 @@ impl<'a> M<'a> {
             },
             E::A(name, i) => {
                 let k = self.eval(i, env, depth, ln)?.floor();
+                if k >= 0.0 {
+                    // (an access with a subscript that is too large has dimensioned the array all the same)
+                    self.exists.borrow_mut().insert(name.clone());
+                }
                 if !(0.0..=10.0).contains(&k) {
                     return Err(End::Error("SUBSCRIPT OUT OF RANGE", ln));
                 }
@@ -1604,6 +1629,9 @@ impl<'a> M<'a> {
                     Err(_) => *self.vars.get(inner).unwrap_or(&0.0),
                 }
                 .floor();
+                if k >= 0.0 {
+                    self.exists.borrow_mut().insert(v[..i].to_string());
+                }
                 if !(0.0..=10.0).contains(&k) {
                     return Err(End::Error("SUBSCRIPT OUT OF RANGE", ln));
                 }
@@ -1770,10 +1798,37 @@ impl<'a> M<'a> {
                     (Err(End::Unspec(u)), _) | (_, Err(End::Unspec(u))) => return Err(End::Unspec(u)),
                     (Err(e), _) | (_, Err(e)) => return Err(e),
                 };
+                if k >= 0.0 {
+                    self.exists.borrow_mut().insert(name.clone());
+                }
                 if !(0.0..=10.0).contains(&k) {
                     return Err(End::Error("SUBSCRIPT OUT OF RANGE", ln));
                 }
                 self.vars.insert(format!("{}({})", name, k as i64), x);
+            }
+            St::Erase(a) => {
+                self.kinds.insert("ERASE");
+                if !self.exists.borrow_mut().remove(a) {
+                    return Err(End::Error("ILLEGAL FUNCTION CALL", ln));
+                }
+                let prefix = format!("{}(", a);
+                self.vars.retain(|k, _| !k.starts_with(&prefix));
+            }
+            St::MidS(v, p, l, e) => {
+                self.kinds.insert("MID$=");
+                let t: Vec<char> = self.seval(e, ln)?.chars().collect();
+                let mut cur: Vec<char> = self.svars.get(v).cloned().unwrap_or_default().chars().collect();
+                if *p as usize > cur.len() {
+                    return Err(End::Unspec("MID$ assignment behind the end of the string"));
+                }
+                let lim = l.map(|l| l as usize).unwrap_or(usize::MAX);
+                for (k, c) in t.iter().enumerate() {
+                    if k >= lim || *p as usize - 1 + k >= cur.len() {
+                        break;
+                    }
+                    cur[*p as usize - 1 + k] = *c;
+                }
+                self.svars.insert(v.clone(), cur.into_iter().collect());
             }
             St::Swap(a, b) => {
                 self.kinds.insert("SWAP");
@@ -2098,6 +2153,7 @@ pub fn model_session(p: &Prog, cmds: &[Cmd], max_steps: u64) -> Vec<ModelRun> {
         p,
         vars: BTreeMap::new(),
         svars: BTreeMap::new(),
+        exists: Default::default(),
         out: String::new(),
         rpos: 0,
         col: 0,
@@ -2185,6 +2241,7 @@ pub fn model_session(p: &Prog, cmds: &[Cmd], max_steps: u64) -> Vec<ModelRun> {
                 // RUN = CLEAR + GOTO
                 m.vars.clear();
                 m.svars.clear();
+                m.exists.borrow_mut().clear();
                 m.stack.clear();
                 m.fns.clear();
                 m.dpos = 0;
